@@ -48,7 +48,7 @@ def legal(addr, ln, size, burst):
 def grid():
     out = []
     for burst in (FIXED, INCR, WRAP):
-        for size in range(4):
+        for size in range(8):           # AxSIZE 0..7: 1 to 128 bytes per transfer (the expansion does not depend on the bus width)
             for ln in LENS:
                 for a in ADDRS:
                     if legal(a, ln, size, burst):
@@ -109,8 +109,8 @@ def generate_indexed(family, index, rng, tier):
         for i in range(rng.randint(3, 12)):
             for _ in range(100):
                 burst = rng.choice(caps)
-                size = rng.randint(0, 3)
-                ln = rng.choice([1, 3, 7, 15]) if burst == WRAP else rng.choice([0, 1, 2, 3, 5, 8, 15, 16, 40])
+                size = rng.randint(0, 3) if rng.random() < 0.6 else rng.randint(4, 7)
+                ln = rng.choice([1, 3, 7, 15]) if burst == WRAP else rng.choice([0, 1, 2, 3, 5, 8, 15, 16, 40, 63, 127, 255])
                 addr = (rng.getrandbits(20) << 12) | rng.choice(ADDRS + [rng.getrandbits(12)])
                 if burst == WRAP:
                     addr = (addr >> size) << size
